@@ -21,6 +21,13 @@ theorem C18_check_shape :
     Extracted.faultsMatchShape = ["if:atomic.LoadInt64()<=?", "if:d.Operation!=op", "range:d.Parameters", "return:true"] := by
   decide
 
+/-- the model's `match` step reads the description list as one atomic step; in the source that is the
+    read lock of `Set.match`, held (deferred unlock) over the whole walk — `prune` compacts the same
+    backing array under the write lock, so a walk outside the lock can pass a live description by -/
+theorem C18_match_walks_under_lock :
+    Extracted.faultsSetMatchLock = ["RLock", "defer:RUnlock", "assign", "range", "return"] := by
+  decide
+
 def cnt (ds : List Desc) (i : Nat) : Int := match ds[i]? with | some d => d.count | none => 0
 def pos (x : Int) : Int := if 0 < x then x else 0
 def fires (cs : List Caller) (i : Nat) : Nat := cs.countP (fun c => c.phase == Phase.fired i)
